@@ -65,7 +65,7 @@ func NewChild(name string, timeout time.Duration) *Child {
 
 func (c *Child) start() error {
 	self, _ := os.Executable()
-	c.cmd = exec.Command(self, "child", c.name)
+	c.cmd = exec.Command(self, append(append([]string{}, SelfArgsPrefix...), "child", c.name)...)
 	c.cmd.Env = append(os.Environ(), "GOMAXPROCS=2")
 	var err error
 	if c.in, err = c.cmd.StdinPipe(); err != nil {
